@@ -213,6 +213,7 @@ type FinalQuery struct {
 	BatchPC []string
 	expand  func(a pendingAssert) (*FinalQuery, string)
 	Choices []int
+	InSeq   []string // inputs created on the path, in call order ("kind:name")
 	File    string
 	Inputs  []string // terms to evaluate when sat
 	Result  string   // sat | unsat | unknown
